@@ -150,10 +150,38 @@ def single_funnel(ctx):
             ok = ok and covered
         ctx.ob(f, f'{step}() inside try/except Exception -> set_exception', ok,
                f'an exception from {step} must be recorded into the coordinator, otherwise the future can report success/hang')
+    g = ctx.cfg(f)
+    waits = [n for c in q.find_calls(f, '_wait_on_dependent_futures') for n in g.nodes_of(c)]
+    gathers = [n for c in q.find_calls(f, '_get_all_main_kwargs') for n in g.nodes_of(c)]
+    for c in q.find_calls(f, '_wait_on_dependent_futures'):
+        ctx.ob(f, f'{short(c)} is unconditional', not q.guards(c) and q.in_loop(c) is None,
+               f'the wait for the futures this task depends on must not be skipped (guards={q.guard_texts(c)}): a final task would announce done / abort while requests are in flight')
     for c in q.find_calls(f, '_execute_main'):
         gs = q.guards(c)
         ctx.ob(f, c, q.guards_imply(gs, 'not self._transfer_coordinator.done()'),
                f'the task body must be skipped once the transfer is done (guards={q.guard_texts(c)})')
+        # the done() test that guards the body must be evaluated after the wait (and kwargs gathering)
+        tests = []
+        for e, pol in gs:
+            for x in ast.walk(e):
+                if isinstance(x, ast.Call) and (dotted(x.func) or '').endswith('_transfer_coordinator.done'):
+                    tests.append(x)
+                elif isinstance(x, ast.Name):
+                    for st, v in q.local_defs(f, x.id):
+                        if isinstance(v, ast.AST):
+                            tests += [y for y in ast.walk(v) if isinstance(y, ast.Call) and (dotted(y.func) or '').endswith('_transfer_coordinator.done')]
+        tn = [n for t in tests for n in g.nodes_of(t)]
+        ok = bool(tn) and bool(waits) and g.all_dominate(waits, tn, g.NORMAL) and (not gathers or g.all_dominate(gathers, tn, g.NORMAL))
+        ctx.ob(f, 'done() is tested after waiting for the dependencies, right before the body', ok,
+               'a cancellation/failure that lands while this task waits for its dependencies must still stop its request')
+        between = g.reach(tn, avoid=g.nodes_of(c), labels=g.NORMAL) - set(g.nodes_of(c))
+        blocking = [n for n in between if n.ast is not None and n.kind == 'stmt' and any(isinstance(y, ast.Call) and 'logger' not in norm(y.func) for y in ast.walk(n.ast))
+                    and n in g.reach(tn, labels=g.NORMAL) and g.nodes_of(c)[0] in g.reach([n], labels=g.NORMAL)]
+        ctx.ob(f, 'nothing blocks between the done() test and the body', not blocking, 'calls between the check and the body: ' + ', '.join(short(n.ast, 40) for n in blocking[:2]))
+    anns = [n for c in q.find_calls(f, 'announce_done') for n in g.nodes_of(c)]
+    ok = bool(waits) and bool(anns) and not (g.reach([g.entry], avoid=waits, labels=None, include_src=True) & set(anns))
+    ctx.ob(f, 'every path to announce_done() passes the wait for the dependent futures', ok,
+           'the final task can announce done (run cleanups / on_done) before the requests it depends on have returned')
     # finally: done callbacks + announce when final
     for c in q.find_calls(f, 'announce_done'):
         frames = q.enclosing_trys(c)
@@ -181,7 +209,7 @@ def single_funnel(ctx):
            and not q.enclosing_trys(mains[0]), '_main must be called exactly once, unconditionally, outside any try')
 
 
-@rule('C03.b', ['C03'], floor=2)
+@rule('C03.b', ['C03', 'C05', 'C17'], floor=2)
 def success_has_one_writer(ctx):
     """set_result is called only by Task._execute_main, control dependent on
     self._is_final and dominated by the normal return of the _main call."""
@@ -194,9 +222,10 @@ def success_has_one_writer(ctx):
             continue
         g = ctx.cfg(cf)
         mains = [n for m in q.find_calls(cf, '_main') for n in g.nodes_of(m)]
-        ok = q.guards_imply(q.guards(c), 'self._is_final') and bool(mains) and g.all_dominate(mains, g.nodes_of(c), g.NORMAL) \
+        conj = ' and '.join(('' if pol else 'not ') + f'({norm(e)})' for e, pol in q.guards(c)) or 'True'
+        ok = q.equivalent(conj, 'self._is_final') and bool(mains) and g.all_dominate(mains, g.nodes_of(c), g.NORMAL) \
             and not q.in_handler(c) and not any(field == 'finalbody' for _, field in q.enclosing_trys(c))
-        ctx.ob(cf, c, ok, f'set_result must run only for the final task after _main returned normally (guards={q.guard_texts(c)})')
+        ctx.ob(cf, c, ok, f'set_result must run exactly when the final task\'s _main returned normally - success of the final step overrides an earlier cancel (guards={q.guard_texts(c)})')
         arg = c.args[0] if c.args else None
         src = isinstance(arg, ast.Name) and any(isinstance(v, ast.Call) and (dotted(v.func) or '').endswith('_main') for _, v in q.local_defs(cf, arg.id))
         ctx.ob(cf, f'set_result argument {norm(arg)}', bool(src), 'the result must be the return value of _main')
@@ -297,6 +326,22 @@ def bounded_retry(ctx):
         bad = set(names) & BROAD
         ctx.ob('utils.S3_RETRYABLE_DOWNLOAD_ERRORS', f'S3_RETRYABLE_DOWNLOAD_ERRORS = {names}', not bad,
                f'the retryable set must not contain catch-all classes: {sorted(bad)}')
+        origins = set()
+        for x in (e.elts if isinstance(e, (ast.Tuple, ast.List)) else [e]):
+            if isinstance(x, ast.Name):
+                g_ = ctx.p.resolve_global(utils, x.id)
+                if isinstance(g_, tuple) and g_[0] == 'const':
+                    origins.add('builtins.' + norm(g_[2]) if isinstance(g_[2], ast.Name) else norm(g_[2]))
+                elif isinstance(g_, tuple) and g_[0] == 'external':
+                    origins.add(f'{g_[1]}.{g_[2]}')
+                else:
+                    origins.add(x.id)
+            else:
+                origins.add(norm(x))
+        want = {'socket.timeout', 'builtins.ConnectionError', 'botocore.exceptions.ReadTimeoutError', 'botocore.exceptions.IncompleteReadError',
+                'botocore.exceptions.ResponseStreamingError'}
+        ctx.ob('utils.S3_RETRYABLE_DOWNLOAD_ERRORS', 'the retryable set is exactly the five stream errors', origins == want,
+               f'non-retryable errors must never be retried; unexpected members: {sorted(origins - want)}; missing: {sorted(want - origins)}')
     else:
         raise AnalysisError('utils.S3_RETRYABLE_DOWNLOAD_ERRORS vanished')
     for f, c, op in q.client_calls(ctx, 'get_object'):
